@@ -3,7 +3,7 @@
    All distances are squared Euclidean distances over Z (see Model.v). *)
 From Coq Require Import ZArith List Bool Lia Permutation.
 Import ListNotations.
-From FV.C16 Require Import Model ProofsSort ProofsKnn.
+From FV.C16 Require Import Model ProofsSort ProofsKnn ProofsHd ProofsHop.
 Open Scope Z_scope.
 
 (* possible_dist_min: the clamped distance is a lower bound for every point of the box *)
@@ -59,5 +59,138 @@ Theorem C16_vectors_dists_consistent :
   forall x y z a b c, d2 (x, y, z) (a, b, c) = sq (a - x) + sq (b - y) + sq (c - z).
 Proof. intros. exact (vectors_dists_consistent (x, y, z) (a, b, c)). Qed.
 
+(* Hausdorff distance of node sets, directed and symmetric, full statement: for
+   all valid octrees of two non-empty point sets (any boxes, any shape), every
+   queue discipline, including the upper-bound ordering of the leaves of A, the
+   early `break`, the pruning `d > dist` and the `hi <= HD -> return 0`
+   shortcut: the result is max_a min_b |a-b|^2 (symmetric: the max of both
+   directions), evaluated exhaustively. *)
+Theorem C16_hausdorff_correct :
+  forall pick fuel directed tA tB A B,
+    pick_ok pick ->
+    validb tA = true -> validb tB = true -> tree_of tA A -> tree_of tB B -> A <> [] -> B <> [] ->
+    (size tA < fuel)%nat -> (size tB < fuel)%nat ->
+    hausdorff pick fuel directed tA tB =
+      Some (if directed then hausdorff_directed_spec A B else hausdorff_spec A B).
+Proof. exact hausdorff_correct. Qed.
+
+(* the shortcut lemma on its own: calc_frm returns the exact nearest-neighbour
+   distance, or (shortcut) a guarantee that it does not exceed the running HD *)
+Theorem C16_hausdorff_shortcut_sound :
+  forall pick, pick_ok pick -> forall HD a fuel t,
+    validb t = true -> (size t < fuel)%nat ->
+    exists r, nn_search pick fuel HD a [(0, t)] Inf = Some r /\
+              match r with
+              | Found d => d = nn_spec a (map snd (points t))
+              | Short => Dleb (nn_spec a (map snd (points t))) HD = true
+              end.
+Proof.
+  intros pick Hp HD a fuel t Hv Hf.
+  destruct (nn_search_root pick Hp HD a fuel t Hv Hf) as [r [H1 H2]].
+  exists r. split; auto. rewrite <- mind_spec. exact H2.
+Qed.
+
+(* hop graph, nodal mode: for every mesh connectivity whose entries are node
+   indices, every node positions, every squared radius, every row v: the BFS
+   kernel terminates within its fuel, lists no node twice, and lists exactly the
+   nodes w <> v for which the docstring's definition holds: a sequence
+   v = v_0, ..., v_n = w with every v_i within the radius of v and consecutive
+   nodes sharing an element. *)
+Theorem C16_hop_graph_nodal_correct :
+  forall nV conn pos r2 v, conn_ok nV conn = true -> (v < nV)%nat ->
+    exists row, hop_nodal_row nV conn pos r2 v = Some row /\ NoDup row /\
+      forall w, In w row <-> w <> v /\ node_path conn pos r2 v w.
+Proof.
+  intros nV conn pos r2 v Hc Hv.
+  destruct (hop_nodal_reach nV conn pos r2 Hc v Hv) as (row & H1 & H2 & H3).
+  exists row. split; auto. split; auto. intros w. rewrite H3.
+  rewrite <- (nodal_reach_is_node_path nV conn pos r2 Hc v w Hv). tauto.
+Qed.
+
+(* elemental mode: row e lists exactly the elements e' <> e reachable through a
+   chain of elements in which consecutive elements share a node that lies within
+   the radius of some vertex of e (= reachability in the radius-filtered
+   bipartite node/element graph) *)
+Theorem C16_hop_graph_elemental_correct :
+  forall nV conn pos r2 e, conn_ok nV conn = true -> (e < length conn)%nat ->
+    exists row, hop_elemental_row nV conn pos r2 e = Some row /\ NoDup row /\
+      forall e', In e' row <-> e' <> e /\ elem_path conn pos r2 e e'.
+Proof.
+  intros nV conn pos r2 e Hc He.
+  destruct (hop_elemental_reach nV conn pos r2 Hc e He) as (row & H1 & H2 & H3).
+  exists row. split; auto. split; auto. intros e'. rewrite H3.
+  rewrite (elemental_reach_is_elem_path nV conn pos r2 Hc e e' He). tauto.
+Qed.
+
+(* both are reachability in the bipartite graph the kernels walk *)
+Theorem C16_hop_graph_bfs_is_reachability :
+  forall nV conn pos r2, conn_ok nV conn = true ->
+    (forall v, (v < nV)%nat ->
+       exists row, hop_nodal_row nV conn pos r2 v = Some row /\
+         forall w, In w row <->
+           (w < nV)%nat /\ w <> v /\ reach (succ nV conn (near_node pos r2 v)) v w) /\
+    (forall e, (e < length conn)%nat ->
+       exists row, hop_elemental_row nV conn pos r2 e = Some row /\
+         forall e', In e' row <->
+           e' <> e /\ reach (succ nV conn (near_elem conn pos r2 e)) (nV + e) (nV + e')).
+Proof.
+  intros nV conn pos r2 Hc. split.
+  - intros v Hv. destruct (hop_nodal_reach nV conn pos r2 Hc v Hv) as (row & H1 & _ & H3). eauto.
+  - intros e He. destruct (hop_elemental_reach nV conn pos r2 Hc e He) as (row & H1 & _ & H3). eauto.
+Qed.
+
+(* Observation (not part of the property as fixed in DESIGN.md): the docstring's
+   wording of the elemental mode -- dist(e, e_i) <= r for all i and consecutive
+   elements share *some* node -- is weaker than what the kernel computes: the
+   kernel's relation is contained in it, strictly on this mesh
+   (e0 = {0,1}, e1 = {0,2}, e2 = {2,3}; node 3 is within r of node 1, node 2 is far). *)
+Theorem C16_elemental_kernel_within_docstring :
+  forall conn pos r2 e e', elem_path conn pos r2 e e' -> doc_elem_path conn pos r2 e e'.
+Proof.
+  induction 1 as [|a b Hab IH Hb (n & Hna & Hnb & Hnear)]. constructor.
+  eapply dep_step; eauto. exists n; auto.
+Qed.
+Definition doc_conn : list (list nat) := [[0; 1]; [0; 2]; [2; 3]]%nat.
+Definition doc_pos : list P := [(0, 0, 0); (10, 0, 0); (5, 50, 0); (10, 1, 0)].
+Theorem C16_elemental_docstring_differs :
+  doc_elem_path doc_conn doc_pos 1 0%nat 2%nat /\
+  hop_elemental_row 4 doc_conn doc_pos 1 0%nat = Some [1%nat] /\
+  ~ elem_path doc_conn doc_pos 1 0%nat 2%nat.
+Proof.
+  assert (hop_elemental_row 4 doc_conn doc_pos 1 0%nat = Some [1%nat]) as Hrow by (vm_compute; reflexivity).
+  split; [|split; auto].
+  - apply dep_step with (a := 1%nat).
+    + apply dep_step with (a := 0%nat). constructor. vm_compute; lia.
+      exists 0%nat. vm_compute. auto. exists 0%nat. vm_compute. auto.
+    + vm_compute; lia.
+    + exists 2%nat. vm_compute. auto.
+    + exists 3%nat. vm_compute. auto.
+  - intros Hp.
+    destruct (C16_hop_graph_elemental_correct 4 doc_conn doc_pos 1 0%nat) as (row & H1 & _ & H3).
+    reflexivity. vm_compute; lia.
+    rewrite Hrow in H1. inversion H1; subst.
+    assert (In 2%nat [1%nat]) as Hin by (apply H3; split; [lia|exact Hp]).
+    destruct Hin as [Hc|[]]. discriminate.
+Qed.
+
+(* non-vacuity: the hypotheses are satisfied by the exact octree (depth 8, 289
+   cells) of a point set with duplicates and ties, and by a small mesh *)
+Definition ex_pts : list P := [(0,0,0); (2,0,0); (0,2,0); (0,0,2); (2,2,2); (2,2,2); (1,1,1)].
+Definition ex_tree : tree := octree 8 ex_pts ex_pts.
+Example C16_hypotheses_inhabited :
+  validb ex_tree = true /\ tree_of ex_tree (map (scale_pt (octree_scale 8)) ex_pts) /\
+  (100 < size ex_tree)%nat /\ pick_ok pop_min /\
+  conn_ok 4 doc_conn = true.
+Proof.
+  split. { vm_compute. reflexivity. }
+  split. { apply tree_of_by_sort. vm_compute. reflexivity. }
+  split. { vm_compute. lia. }
+  split. { exact pop_min_ok. } reflexivity.
+Qed.
+
 Print Assumptions C16_knn_search_correct.
 Print Assumptions C16_knn_code_queue.
+Print Assumptions C16_hausdorff_correct.
+Print Assumptions C16_hop_graph_nodal_correct.
+Print Assumptions C16_hop_graph_elemental_correct.
+Print Assumptions C16_elemental_docstring_differs.
